@@ -127,6 +127,12 @@ static void cb_point(Search* s, int point)
     }
 }
 
+// what Uci::go_command does for wtime / btime (a tree without the field simply has no such flag)
+template <class L> static void mark_clock(L& l)
+{
+    if constexpr (requires { l.clock; }) l.clock = true;
+}
+
 static std::vector<std::string> split(const std::string& s)
 {
     std::vector<std::string> v; std::istringstream is(s); std::string t;
@@ -239,8 +245,8 @@ static std::string op_go(const std::string& rest)
     {
         const std::string& t = toks[i];
         auto num = [&](size_t j) { return j < toks.size() ? atoll(toks[j].c_str()) : 0LL; };
-        if (t == "wtime") limits.timeleft[WHITE] = int(num(++i));
-        else if (t == "btime") limits.timeleft[BLACK] = int(num(++i));
+        if (t == "wtime") { limits.timeleft[WHITE] = int(num(++i)); mark_clock(limits); }
+        else if (t == "btime") { limits.timeleft[BLACK] = int(num(++i)); mark_clock(limits); }
         else if (t == "winc") limits.timeinc[WHITE] = int(num(++i));
         else if (t == "binc") limits.timeinc[BLACK] = int(num(++i));
         else if (t == "movestogo") limits.movestogo = int(num(++i));
